@@ -14,10 +14,12 @@
 (* Modes (cells x values):  "und" upper pairs x {0,1};  "dir" ordered pairs x {0,1};  *)
 (* "wund" upper pairs x 0..WMax;  "wdir" ordered pairs x 0..WMax;  "sign" upper pairs *)
 (* x -WMax..WMax.  N[mode] nodes.  Staged enumeration (half the cells per step) so    *)
-(* that all workers share the work.  Weights <= 3, n <= 5: everything is far below    *)
+(* that all workers share the work; PFirst slices the permutations by their first   *)
+(* entry so that several TLC runs can share one mode (all slices together = S_n).  Weights <= 3, n <= 5: everything is far below    *)
 (* 2^31.                                                                              *)
 EXTENDS Equivariance
-CONSTANTS NU, ND, NWU, NWD, NS, WMax, Modes
+CONSTANTS NU, ND, NWU, NWD, NS, WMax, Modes,
+          PFirst          \* slice of the permutations handled by this run: p[1] \in PFirst
 NOf == [und |-> NU, dir |-> ND, wund |-> NWU, wdir |-> NWD, sign |-> NS]
 Di == INSTANCE Distance
 Bw == INSTANCE Betweenness
@@ -40,7 +42,8 @@ MatOf(m, w) ==
   THEN Mat(n, LAMBDA i, j : IF i < j THEN w[<<i, j>>] ELSE IF j < i THEN w[<<j, i>>] ELSE 0)
   ELSE Mat(n, LAMBDA i, j : IF i = j THEN 0 ELSE w[<<i, j>>])
 
-Init == mode \in Modes /\ stage = 0 /\ A = <<>> /\ PA = <<>> /\ p \in Perms(NOf[mode])
+Init == mode \in Modes /\ stage = 0 /\ A = <<>> /\ PA = <<>>
+        /\ p \in {q \in Perms(NOf[mode]) : q[1] \in PFirst}
 Choose1 == /\ stage = 0 /\ stage' = 1 /\ UNCHANGED <<mode, p, PA>>
            /\ A' \in [First(mode) -> Vals(mode)]
 Choose2 == /\ stage = 1 /\ stage' = 9 /\ UNCHANGED <<mode, p>>
